@@ -89,8 +89,20 @@ def run(prop, tier, seed, workdir):
         return tlc.validate("TraceTok", os.path.join(tlc.SPEC, "TraceTok.cfg"), g, workdir, jvms=1, timeout=1800 if tier == "quick" else 6000)
     with ThreadPoolExecutor(max_workers=k) as ex:
         outs = list(ex.map(runchunk, chunks))
+        # judged in pieces of at most 30000 events that begin with a session (the trace spec carries the list of rejected /
+        # deviating events in its state: very long pieces make every state large)
+        pieces = []
+        for o in outs:
+            cur = []
+            for ln in o:
+                if len(cur) >= 30000 and ln.startswith('{"e":"Reset"'):
+                    pieces.append(cur)
+                    cur = []
+                cur.append(ln)
+            if cur:
+                pieces.append(cur)
         total, bad, tstates = 0, [], 0
-        for n, bd, stt in ex.map(val, outs):
+        for n, bd, stt in ex.map(val, pieces):
             total += n
             bad += bd
             tstates += stt
